@@ -110,6 +110,11 @@ class VFS:
         self.files[path] = VFile('bytes', data, exists)
         self._mkdirs(path)
 
+    def add_symtext(self, path, text):
+        """a text file whose content is symbolic text (symx.symstr.SymStr)"""
+        self.files[path] = VFile('symtext', text, True)
+        self._mkdirs(path)
+
     def add_gap(self, path, marker):
         self.files[path] = VFile('gap', None, True, marker)
         self._mkdirs(path)
@@ -152,6 +157,8 @@ class VFS:
             raise FileNotFoundError(2, 'No such file or directory', p)
         if f.kind == 'gap':
             return GapSize(f.marker)
+        if f.kind == 'symtext':
+            return len(f.content.encode('utf-8'))
         if f.kind == 'text':
             return len(f.content.encode('utf-8'))
         if f.kind == 'written':
@@ -185,6 +192,8 @@ class VFS:
             if 'b' not in mode:
                 raise EngineLimit('gap file opened in text mode')
             return _Reader(SymBytes([Seg('opaque', fid=f.marker, off=0, count=Markers.table[f.marker])]))
+        if f.kind == 'symtext':
+            return _Reader(f.content if 'b' not in mode else f.content.encode('utf-8'))
         if f.kind == 'text':
             return _Reader(f.content if 'b' not in mode else f.content.encode('utf-8'))
         if f.kind == 'written':
